@@ -127,6 +127,9 @@ pub struct ConnOp {
     /// fire after this many API events have been logged
     pub after_events: usize,
     pub cmd: ConnCmd,
+    /// … and then after this many further progress ticks (bytes moved / API events) of the system
+    #[serde(default)]
+    pub gap: usize,
 }
 
 #[derive(Clone, Debug, Serialize, Deserialize)]
@@ -326,7 +329,7 @@ pub fn gen_pair(tapes: &[Vec<u32>], focus: Focus) -> PairCase {
                 1 => ConnCmd::SetTargetWindow(*t.pick(&[65535u32, 70000, 1 << 20, 100_000])),
                 _ => ConnCmd::Ping,
             };
-            ops.push(ConnOp { side, after_events: t.below(40), cmd });
+            ops.push(ConnOp { side, after_events: t.below(40), cmd, gap: 0 });
         }
     }
     if t.chance(1, 5) {
@@ -334,7 +337,7 @@ pub fn gen_pair(tapes: &[Vec<u32>], focus: Focus) -> PairCase {
         let side = if t.bool() { Side::Client } else { Side::Server };
         let n = 2 + t.below(2);
         for k in 0..n {
-            ops.push(ConnOp { side, after_events: if t.bool() { t.below(40) } else { 10_000 + k }, cmd: ConnCmd::Ping });
+            ops.push(ConnOp { side, after_events: if t.bool() { t.below(40) } else { 10_000 + k }, cmd: ConnCmd::Ping, gap: 0 });
         }
     }
     let mut fault = None;
@@ -347,12 +350,14 @@ pub fn gen_pair(tapes: &[Vec<u32>], focus: Focus) -> PairCase {
                 let at = t.below(60);
                 if t.chance(1, 2) {
                     // a user PING written just before: two PINGs outstanding when the shutdown begins
-                    ops.push(ConnOp { side: Side::Server, after_events: at, cmd: ConnCmd::Ping });
+                    ops.push(ConnOp { side: Side::Server, after_events: at, cmd: ConnCmd::Ping, gap: 0 });
                 }
-                ops.push(ConnOp { side: Side::Server, after_events: at, cmd: ConnCmd::GracefulShutdown });
+                // (the shutdown follows one or two API events later, so the user PING is often on the wire first)
+                let gap = if ops.iter().any(|o| matches!(o.cmd, ConnCmd::Ping) && o.after_events == at) { 1 + t.below(6) } else { 0 };
+                ops.push(ConnOp { side: Side::Server, after_events: at, cmd: ConnCmd::GracefulShutdown, gap });
             }
-            2 => ops.push(ConnOp { side: Side::Server, after_events: t.below(60), cmd: ConnCmd::AbruptShutdown(t.below(14) as u32) }),
-            _ => ops.push(ConnOp { side: if t.bool() { Side::Client } else { Side::Server }, after_events: t.below(60), cmd: ConnCmd::DropConnection }),
+            2 => ops.push(ConnOp { side: Side::Server, after_events: t.below(60), cmd: ConnCmd::AbruptShutdown(t.below(14) as u32), gap: 0 }),
+            _ => ops.push(ConnOp { side: if t.bool() { Side::Client } else { Side::Server }, after_events: t.below(60), cmd: ConnCmd::DropConnection, gap: 0 }),
         }
     }
     let mut t2 = Tape::new(&tapes[1]);
@@ -1211,6 +1216,14 @@ pub fn run_sim(case: &PairCase, raw: Option<(Side, Rc<crate::sim_raw::RawSpec>, 
                     } else {
                         idle = 0;
                         last = progress.get();
+                    }
+                }
+                if op.gap > 0 {
+                    let target = progress.get() + op.gap as u64;
+                    let mut spins = 0;
+                    while progress.get() < target && spins < 200 {
+                        yield_now().await;
+                        spins += 1;
                     }
                 }
                 let q = if op.side == Side::Client { &c2 } else { &s2 };
